@@ -149,6 +149,14 @@ func (g *G) Text() []byte {
 		n = 3
 	}
 	s := textPool[g.T.Draw(n)]
+	if g.K.SpareCap && g.T.Bool(1, 2) {
+		// a text whose slice has spare capacity holding sentinel bytes: an encoder that appends to
+		// the text it was given (a closing quote, a terminator) writes there
+		b := make([]byte, 0, len(s)+4)
+		b = append(b, s...)
+		copy(b[len(s):cap(b)], "ZZZZ")
+		return b
+	}
 	return append([]byte{}, s...)
 }
 
